@@ -156,6 +156,60 @@ m('rand-flow','C20',['RAND-FLOW'],'backend/groth16/bls12-381/prove.go','''		ar.A
 ''','')
 m('rand-source','C20',['RAND-SOURCE'],pl+'prove.go','''	s.bp[id_Bz] = getRandomPolynomial(order_blinding_Z)''','''	s.bp[id_Bz] = iop.NewPolynomial(&[]fr.Element{{}, {}, {}}, iop.Form{Basis: iop.Canonical, Layout: iop.Regular})''')
 m('flow-sw-emulated','C16',['FLOW-REF','FLOW-PARAM','FLOW-SOME'],'std/algebra/emulated/sw_emulated/point.go','''	c.scalarApi.AssertIsEqual(''','''	func(...any) {}(''',count=5)
+# ---- benign refactors: behaviour-preserving edits that must NOT raise any alarm -------------------------------
+def benign_plonk_helper():
+    f=os.path.join(WT,'backend/plonk/bn254/verify.go'); s=open(f).read()
+    a=s.index('	// check that the points in the proof are on the curve'); b=s.index('	// transcript to derive the challenge')
+    body=s[a:b].replace('	// check that the points in the proof are on the curve\n','')
+    s=s[:a]+'''	// check that the points in the proof are on the curve
+	if err := proof.checkSubgroups(); err != nil {
+		return err
+	}
+
+'''+s[b:]
+    s=s.replace('func Verify(proof *Proof,','func (proof *Proof) checkSubgroups() error {\n'+body+'	return nil\n}\n\nfunc Verify(proof *Proof,',1)
+    open(f,'w').write(s)
+def save(mid, prop, file, note):
+    d = subprocess.run(['git','-C',WT,'diff'],capture_output=True,text=True).stdout
+    subprocess.check_call(['git','-C',WT,'checkout','--','.'])
+    open(os.path.join(root,'selftest','patches',mid+'.diff'),'w').write(d)
+    M.append({'id':mid,'property':prop,'expect_rules':[],'benign':True,'file':file,'note':note})
+benign_plonk_helper(); save('benign-plonk-helper','C02','backend/plonk/bn254/verify.go','subgroup checks extracted into a helper method, one curve only')
+benign_plonk_helper(); save('benign-plonk-helper-c08','C08','backend/plonk/bn254/verify.go','same refactor, checked against C08')
+def edit(file, pairs):
+    f=os.path.join(WT,file); s=open(f).read()
+    for o,n in pairs:
+        assert s.count(o)>=1, (file,o)
+        s=s.replace(o,n)
+    open(f,'w').write(s)
+edit('backend/groth16/bn254/verify.go',[('nbPublicVars := len(vk.G1.K) - len(vk.PublicAndCommitmentCommitted)','expectedPublic := len(vk.G1.K) - len(vk.PublicAndCommitmentCommitted)'),('if len(publicWitness) != nbPublicVars-1 {','if !(len(publicWitness) == expectedPublic-1) {'),('"invalid witness size, got %d, expected %d (public - ONE_WIRE)"','"bad witness length: got %d, want %d"')])
+save('benign-g16-rename','C01','backend/groth16/bn254/verify.go','local renamed, condition rewritten as !(a==b), message changed')
+edit('constraint/blueprint_scs.go',[('''	m0 = s.Mul(m0, m1)
+
+	s.SetValue(inst.Calldata[2], m0)''','''	product := s.Mul(m0, m1)
+	out := inst.Calldata[2]
+
+	s.SetValue(out, product)''')])
+save('benign-gate-temp','C06','constraint/blueprint_scs.go','temporaries introduced in the Mul gate Solve')
+edit('std/math/bits/conversion_binary.go',[('''		if !cfg.UnconstrainedOutputs {
+			api.AssertIsBoolean(bits[i])
+		}''','''		if !cfg.UnconstrainedOutputs {
+			bit := bits[i]
+			api.AssertIsBoolean(bit)
+		}''')])
+save('benign-bits-temp','C05','std/math/bits/conversion_binary.go','temporary introduced before the booleanity assertion')
+edit('frontend/cs/scs/builder.go',[('''		missing := make([]int, 0, len(lookup))
+		for k := range lookup {
+			missing = append(missing, k)
+		}
+		sort.Ints(missing)''','''		var missing []int
+		for wireID := range lookup {
+			missing = append(missing, wireID)
+		}
+		sort.Slice(missing, func(i, j int) bool { return missing[i] < missing[j] })''')])
+save('benign-det-sort','C11','frontend/cs/scs/builder.go','sorted-keys idiom rewritten with sort.Slice')
+edit('backend/groth16/bn254/prove.go',[('	var _r, _s, _kr fr.Element','	var _s, _r, _kr fr.Element')])
+save('benign-rand-decl','C20','backend/groth16/bn254/prove.go','declaration order of the random scalars swapped')
 json.dump({'comment':'selftest mutants: each patch breaks one rule instance and must be detected by the listed rule(s) of its property; produced by tools/make_selftest.py','mutants':M}, open(os.path.join(root,'selftest','mutants.json'),'w'), indent=1)
 subprocess.run(['git','-C','/repo','worktree','remove','--force',WT],capture_output=True)
 print(len(M),'mutants')
